@@ -184,8 +184,8 @@ def main(tier, replay=None):
     if rc != 0:
         return c.finish(TRUSTED, no_input_break="model driver failed: " + me[-1500:])
     hist = split_histories(impl)
-    rc, mord, me = V.sh("%s %d %d order < %s" % (exe, batch, cap, impl), timeout=3000)
-    st, bad = evaluate(c, mo, hist, exe, p_lines(mord) if rc == 0 else None)
+    rc_ord, mord, me = V.sh("%s %d %d order < %s" % (exe, batch, cap, impl), timeout=3000)
+    st, bad = evaluate(c, mo, hist, exe, p_lines(mord) if rc_ord == 0 else None)
 
     # the witnesses of the _refuted theorems, replayed on the model of the code AS FOUND: the directed
     # scenarios must show the three defects there (spec mismatch / panic / residue)
@@ -200,6 +200,12 @@ def main(tier, replay=None):
                 found.add("panic")
             if f[0] == "Z" and int(f[1]) >= 900000 and f[5] == "1":
                 found.add("residue")
+
+    if rc_ord == 0:
+        for l in mord.splitlines():
+            f = l.split("\t")
+            if f[0] == "P" and int(f[1]) >= 900000 and f[4] == "ok" and f[5] == "err":
+                found.add("order")
 
     for h, (key, what) in sorted(bad.items()):
         rep = {"history": h, "kind": key, "lines": hist.get(h, [])[:600]}
@@ -230,7 +236,7 @@ def main(tier, replay=None):
     })
     c.assumptions = ["node mempool empty", "consensus-valid chains only", "CoinbaseMaturity lowered to 4 and scrypt N to 16 by the harness (package variables)",
                      "pending set not modelled (its records are covered only by the raw scan)"]
-    if not replay and found != {"frame", "panic", "residue"} and not c.violations:
+    if not replay and found != {"frame", "panic", "residue", "order"} and not c.violations:
         brk = "the model of the code as found no longer shows the recorded defects on the directed scenarios: shown %s" % sorted(found)
     if not proofs_ok and not c.violations and not brk:
         brk = "proof obligations of Properties/C08.v no longer check: " + str(c.proof_break)
